@@ -90,7 +90,12 @@ TVCall == /\ l <= Len(Rec) /\ Rec[l].ev = "call"
           /\ judged' = judged + 1 /\ l' = l + 1
           /\ UNCHANGED cur
 
-TVNext == TVReset \/ TVFlags \/ TVCall
+TVTeardown == /\ l <= Len(Rec) /\ Rec[l].ev = "teardown"
+              /\ viol' = AddViol(viol, TeardownViol(Rec[l], "frontend"), cur)
+              /\ l' = l + 1
+              /\ UNCHANGED <<fe, judged, cur, desync>>
+
+TVNext == TVTeardown \/ TVReset \/ TVFlags \/ TVCall
 TVSpec == TVInit /\ [][TVNext]_tvars
 Post == PostOK
 Report == ReportAt(l, judged, viol)
